@@ -858,6 +858,9 @@ impl<'b> InnerBucket<'b> {
                         // Make that child page the bucket's root page.
                         self.meta.root_page = page_id;
                         self.root = PageNodeID::Page(page_id);
+                    } else if !node.leaf() && node.data.len() == 0 {
+                        // Every child was emptied and removed: the bucket is empty again.
+                        node.data = NodeData::Leaves(Vec::new());
                     }
                 } else {
                     // else find a sibling and merge this node with that one
@@ -871,7 +874,9 @@ impl<'b> InnerBucket<'b> {
                         // since there are no siblings to move the data to.
                         // When we handle the parent, it will get merged with it's siblings or promoted
                         // to root.
-                        if branches.len() == 1 {
+                        // An empty node is removed even then, so that no empty page is ever
+                        // written below the root; the parent is dealt with when we reach it.
+                        if branches.len() == 1 && node.data.len() > 0 {
                             continue;
                         }
                         // check if there is any data left to copy
